@@ -136,9 +136,9 @@ pub fn content_of(ty: &str, c: &Value, v: u64) -> Value {
                     if t["hastoken"].as_bool().unwrap() {
                         signed.insert("token".into(), t["token"].as_str().unwrap().to_owned().into());
                     }
-                    // signed by the identity server's key 7 (listed in the m.room.third_party_invite event) or by
-                    // the unlisted key 9
-                    let kp = keypair(if t["sigok"].as_bool().unwrap() { 7 } else { 9 }, "0");
+                    // signed by one of the identity server's keys k7, k8, k9; which of them the m.room.third_party_invite
+                    // event names (top-level public_key, public_keys list) is part of the case
+                    let kp = keypair(tpi_key_seed(t["sigkey"].as_str().unwrap_or("k9")), "0");
                     ruma_signatures::sign_json("id.example", &kp, &mut signed).expect("sign");
                     tp["signed"] = serde_json::to_value(&signed).unwrap();
                 }
@@ -171,13 +171,24 @@ pub fn content_of(ty: &str, c: &Value, v: u64) -> Value {
             o
         }
         "m.room.third_party_invite" => {
-            let pk = b64(&keypair(7, "0").public_key());
-            let pk2 = b64(&keypair(8, "0").public_key());
-            json!({"display_name": "x", "key_validity_url": "https://id.example/valid", "public_key": pk2,
-                   "public_keys": [{"public_key": pk, "key_validity_url": "https://id.example/valid"}]})
+            let pk = |name: &str| b64(&keypair(tpi_key_seed(name), "0").public_key());
+            let top = c.get("tpikeys").and_then(|k| k["top"].as_str()).unwrap_or("k8");
+            let list: Vec<&str> = match c.get("tpikeys") {
+                Some(k) => k["list"].as_array().unwrap().iter().map(|x| x.as_str().unwrap()).collect(),
+                None => vec!["k7"],
+            };
+            let mut o = json!({"display_name": "x", "key_validity_url": "https://id.example/valid", "public_key": pk(top)});
+            if !list.is_empty() {
+                o["public_keys"] = list.iter().map(|n| json!({"public_key": pk(n), "key_validity_url": "https://id.example/valid"})).collect();
+            }
+            o
         }
         _ => json!({}),
     }
+}
+
+fn tpi_key_seed(name: &str) -> u8 {
+    match name { "k7" => 7, "k8" => 8, _ => 9 }
 }
 
 /// Builds a Pdu from the compact projection of a model event.
